@@ -24,6 +24,7 @@ import numpy as np
 
 from ..cert import DM, chol_factor, frac_json, repair_povm
 from ..common import InfraError
+from ..exact import Pure, call_rng, describe, present_list, vary_ensemble
 from ..pool import Result, run_pool, worker_driver, fold
 from .. import qgen
 
@@ -33,7 +34,13 @@ RULE = ("bipartite ensembles (2..4 states on 2x2 and 2x3 [thorough: also 3x2], r
         "than 1e-4 and max prior + 1e-2 <= value <= 1 - 1e-2 ; distinct = hash of the instance and call form; hierarchy cases: level 1 and 2 (level 2 on 2x3 only in the thorough tier); "
         "symext_embedding: ensembles of 2..3 states on 2x2, 2x3, 3x2 (thorough 3x3) x levels 1, 2 (3 on 2x2; thorough also 2x3) x exact rational separable measurements of the "
         "kinds projective / locc / mixture (4..~20 product outcomes, complex), outcomes attributed by posterior weight or at random; non-trivial = at least two states "
-        "receive an outcome and the ensemble is complex or the dimensions are unequal")
+        "receive an outcome and the ensemble is complex or the dimensions are unequal; "
+        "presentation: every call of ppt_distinguishability / state_distinguishability / symmetric_extension_hierarchy receives the same values in a freshly drawn "
+        "presentation per list element (C / Fortran / strided memory layout; real-valued states as float64, integer-valued ones as int64); one in three complex "
+        "ensembles of the kinds random / prod_ent has some states made real-valued (real-dtype first element followed by complex ones, or the reverse; also "
+        "computational basis vectors); one in eight ensembles with k >= 3 has a prior with an exact zero; uniform priors explicitly or as None; the caller's list, "
+        "arrays and priors must be untouched by every call and a repeated call on the same objects (one in four PPT calls, one in three level-1 hierarchy calls on "
+        "2x2) must return the same value")
 ASSUMPTIONS = [
     "toqito computes with the float inputs it is given; the instance certified is their exact dyadic image (difference <= 1e-15 relative)",
     "tolerance 2e-5 on CVXOPT-solved values (ppt_distinguishability), 1e-3 on the SCS-solved hierarchy values (cvxpy default solver), as declared in DESIGN.md 4.4",
@@ -279,6 +286,7 @@ def _dms_exact(states):
 def _base(inst):
     b = {kk: inst[kk] for kk in ("dA", "dB", "k", "cplx", "form", "kind", "probs")}
     b["states"] = [np.asarray(s) for s in inst["states"]]
+    b["pres"], b["real_idx"] = inst.get("pres"), list(inst.get("real_idx", ()))
     return b
 
 
@@ -320,28 +328,45 @@ def work(task, res: Result):
     vals = {}
     for (pd, sys) in calls:
         desc = dict(base, fn="ppt_distinguishability", primal_dual=pd, subsystems=[sys], probs_given=inst["probs_given"])
-        before = copy.deepcopy(states)
-        arg_states = [np.asarray(s) for s in states]
+        # the same values in a presentation drawn for this call (layout / real and integer dtypes, independently per list element)
+        prng = call_rng(inst.get("pres"), "ppt", pd, sys)
+        arg_states = present_list(prng, states, force_real=inst.get("real_idx", ()))
+        args = dict(vectors=arg_states, subsystems=[sys], dimensions=[dA, dB], probs=(list(probs) if inst["probs_given"] else None),
+                    strategy="min_error", solver="cvxopt", primal_dual=pd)
+        guard = Pure(**args)
         try:
-            val, _ = ppt_distinguishability(vectors=arg_states, subsystems=[sys], dimensions=[dA, dB], probs=(list(probs) if inst["probs_given"] else None),
-                                            strategy="min_error", solver="cvxopt", primal_dual=pd)
+            val, _ = ppt_distinguishability(**args)
+            why_mod = guard.modified()
+            val2 = None
+            if why_mod is None and prng is not None and int(prng.integers(4)) == 0:
+                try:
+                    val2 = float(np.real(ppt_distinguishability(**args)[0]))   # the SAME objects again
+                    why_mod = guard.modified()
+                except (ArithmeticError, ZeroDivisionError):
+                    res.count("repeat-call/solver-numerical-failure")
         except (ArithmeticError, ZeroDivisionError):
             res.case(desc, False, f"ppt/{pd}/sys{sys}/solver-numerical-failure")
             continue
         except Exception as e:
             res.case(desc, True, f"ppt/{pd}/sys{sys}/raise")
             res.violation(f"ppt_distinguishability({pd}, subsystems=[{sys}]) raises {type(e).__name__}: {str(e)[:120]} on a valid ensemble",
-                          {"function": "ppt_distinguishability", "args": desc, "exception": f"{type(e).__name__}: {str(e)[:300]}"})
+                          {"function": "ppt_distinguishability", "args": desc, "exception": f"{type(e).__name__}: {str(e)[:300]}", "presentation": describe(arg_states)})
             continue
         val = float(np.real(val))
         vals[(pd, sys)] = val
         res.case(desc, nontriv, f"ppt/{pd}/sys{sys}/{dA}x{dB}/{inst['form']}/{'c' if inst['cplx'] else 'r'}/{inst['kind']}")
-        if len(arg_states) != len(before) or any(not np.array_equal(a, b) for a, b in zip(arg_states, before)):
-            res.violation("ppt_distinguishability modified the caller's list of states", {"function": "ppt_distinguishability", "args": desc, "mutation": True})
+        if why_mod is not None:
+            res.violation(f"ppt_distinguishability({pd}, subsystems=[{sys}]): caller's arguments were modified ({why_mod})",
+                          {"function": "ppt_distinguishability", "args": desc, "mutation": True, "modified": why_mod, "presentation": describe(arg_states), "check": "purity"})
+        elif val2 is not None:
+            res.count("repeat-call/checked")
+            if abs(val2 - val) > 2 * TAU:
+                res.violation(f"ppt_distinguishability({pd}, subsystems=[{sys}]): a second call on the same objects returns {val2:.8f}, the first returned {val:.8f}",
+                              {"function": "ppt_distinguishability", "args": desc, "values": [val, val2], "presentation": describe(arg_states), "check": "repeat"})
         if ok_iv and not (lo - TAU <= val <= hi + TAU):
             res.violation(f"ppt_distinguishability({pd}, subsystems=[{sys}], dimensions=[{dA},{dB}]) = {val:.8f} outside the certified PPT optimum [{lo:.8f}, {hi:.8f}]",
                           {"function": "ppt_distinguishability", "args": desc, "impl": val, "certified": [lo, hi], "tau": TAU,
-                           "theorem": "checkPPTPrimal_sound / checkPPTDual_sound / ppt_lo_le_hi"})
+                           "theorem": "checkPPTPrimal_sound / checkPPTDual_sound / ppt_lo_le_hi", "presentation": describe(arg_states)})
     if not vals:
         return
     # primal = dual, party irrelevant (also when the interval could not be certified)
@@ -359,7 +384,12 @@ def work(task, res: Result):
             res.violation(f"PPT value {vmax:.8f} exceeds the certified global min-error bound {ghi:.8f}",
                           {"function": "ppt_distinguishability", "args": dict(base, fn="ppt_le_global"), "impl": vmax, "global_hi": ghi, "theorem": "ppt_le_global / ppt_lo_le_global_hi"})
     try:
-        g, _ = state_distinguishability([np.asarray(s) for s in states], list(probs))
+        g_states, g_probs = present_list(call_rng(inst.get("pres"), "global"), states, force_real=inst.get("real_idx", ())), list(probs)
+        g_guard = Pure(g_states, g_probs)
+        g, _ = state_distinguishability(g_states, g_probs)
+        if g_guard.modified() is not None:
+            res.violation(f"state_distinguishability: caller's arguments were modified ({g_guard.modified()})",
+                          {"function": "state_distinguishability", "args": dict(base, fn="ppt_le_global_toqito"), "modified": g_guard.modified(), "presentation": describe(g_states), "check": "purity"})
         res.count("order/le-global-toqito")
         if vmax > float(g) + 2 * TAU:
             res.violation(f"PPT value {vmax:.8f} exceeds toqito's global min-error value {float(g):.8f}",
@@ -407,7 +437,8 @@ def work_invariance(task, res: Result):
     if not inst["cplx"]:
         W = np.real(W)
     st0 = [np.asarray(s) for s in inst["states"]]
-    st1 = [_rot(s, W) for s in st0]
+    st1 = present_list(call_rng(inst.get("pres"), "inv1"), [_rot(s, W) for s in st0])
+    st0 = present_list(call_rng(inst.get("pres"), "inv0"), st0, force_real=inst.get("real_idx", ()))
     desc = dict(_base(inst), fn="local_unitary_invariance", primal_dual=pd, subsystems=[sys], U=inst["U"], V=inst["V"])
     try:
         v0, _ = ppt_distinguishability(vectors=st0, subsystems=[sys], dimensions=[dA, dB], probs=list(probs), primal_dual=pd)
@@ -441,16 +472,22 @@ def work_hierarchy(task, res: Result):
     vals = {}
     for level in levels:
         desc = dict(base, fn="symmetric_extension_hierarchy", level=level, dim=[dA, dB])
-        states = [np.array(s, copy=True) for s in inst["states"]]
+        prng = call_rng(inst.get("pres"), "hier", level)
+        states = present_list(prng, [np.array(s, copy=True) for s in inst["states"]], force_real=inst.get("real_idx", ()))
         before = copy.deepcopy(states)
         ids = [id(s) for s in states]
         dim = None if (dA == dB and inst.get("dim_default", False)) else [dA, dB]
+        arg_probs = list(probs) if inst["probs_given"] else None
+        guard = Pure(states, arg_probs, dim)
+        v2 = None
         try:
-            v = symmetric_extension_hierarchy(states, probs=(list(probs) if inst["probs_given"] else None), level=level, dim=dim)
+            v = symmetric_extension_hierarchy(states, probs=arg_probs, level=level, dim=dim)
+            if guard.modified() is None and level == 1 and dA * dB == 4 and prng is not None and int(prng.integers(3)) == 0:
+                v2 = float(np.real(symmetric_extension_hierarchy(states, probs=arg_probs, level=level, dim=dim)))   # the SAME objects again
         except Exception as e:
             res.case(desc, True, f"hier/level{level}/raise")
             res.violation(f"symmetric_extension_hierarchy(level={level}) raises {type(e).__name__}: {str(e)[:120]} on a valid ensemble",
-                          {"function": "symmetric_extension_hierarchy", "args": desc, "exception": f"{type(e).__name__}: {str(e)[:300]}"})
+                          {"function": "symmetric_extension_hierarchy", "args": desc, "exception": f"{type(e).__name__}: {str(e)[:300]}", "presentation": describe(states)})
             continue
         v = float(np.real(v))
         vals[level] = v
@@ -460,10 +497,20 @@ def work_hierarchy(task, res: Result):
         if len(states) != len(before) or changed:
             res.violation(f"symmetric_extension_hierarchy modified the caller's list of states (entries {changed}: shape {np.shape(before[changed[0]]) if changed else None} -> {np.shape(states[changed[0]]) if changed else None})",
                           {"function": "symmetric_extension_hierarchy", "args": desc, "mutation": True, "form": inst["form"], "changed": changed,
-                           "shape_before": list(np.shape(before[0])), "shape_after": list(np.shape(states[0]))})
+                           "shape_before": list(np.shape(before[0])), "shape_after": list(np.shape(states[0])), "presentation": describe(before)})
+        elif guard.modified() is not None:
+            res.violation(f"symmetric_extension_hierarchy(level={level}): caller's arguments were modified ({guard.modified()})",
+                          {"function": "symmetric_extension_hierarchy", "args": desc, "mutation": True, "form": inst["form"], "modified": guard.modified(),
+                           "presentation": describe(before), "check": "purity"})
+        elif v2 is not None:
+            res.count("repeat-call/hier-checked")
+            if abs(v2 - v) > 2 * TAU_SCS:
+                res.violation(f"symmetric_extension_hierarchy(level={level}): a second call on the same objects returns {v2:.6f}, the first returned {v:.6f}",
+                              {"function": "symmetric_extension_hierarchy", "args": desc, "values": [v, v2], "presentation": describe(states), "check": "repeat"})
         if level == 1 and ok_iv and not (lo - TAU_SCS <= v <= hi + TAU_SCS):
             res.violation(f"symmetric_extension_hierarchy(level=1) = {v:.6f} differs from the certified PPT optimum [{lo:.6f}, {hi:.6f}]",
-                          {"function": "symmetric_extension_hierarchy", "args": desc, "impl": v, "certified": [lo, hi], "tau": TAU_SCS, "theorem": "checkPPTPrimal_sound / checkPPTDual_sound"})
+                          {"function": "symmetric_extension_hierarchy", "args": desc, "impl": v, "certified": [lo, hi], "tau": TAU_SCS, "theorem": "checkPPTPrimal_sound / checkPPTDual_sound",
+                           "presentation": describe(states)})
         if level >= 2 and ok_iv and v > hi + TAU_SCS:
             res.violation(f"symmetric_extension_hierarchy(level={level}) = {v:.6f} exceeds the certified PPT optimum (level 1) {hi:.6f}",
                           {"function": "symmetric_extension_hierarchy", "args": desc, "impl": v, "certified": [lo, hi], "tau": TAU_SCS, "theorem": "checkPPTDual_sound"})
@@ -822,7 +869,7 @@ def work_symext_embed(task, res: Result):
     dA, dB, k, probs = inst["dA"], inst["dB"], inst["k"], inst["probs"]
     D, Dext = dA * dB, dA * dB ** level
     base = dict(_base(inst), fn="symext_embed", level=level, dim=[dA, dB])
-    states = [np.array(s, copy=True) for s in inst["states"]]
+    states = present_list(call_rng(inst.get("pres"), "symext", level), [np.array(s, copy=True) for s in inst["states"]], force_real=inst.get("real_idx", ()))
     dim = None if (dA == dB and inst.get("dim_default", False)) else [dA, dB]
     try:
         got = _capture(lambda: symmetric_extension_hierarchy(states, probs=(list(probs) if inst["probs_given"] else None), level=level, dim=dim))
@@ -911,7 +958,7 @@ def work_symext_embed(task, res: Result):
     res.count(f"symext/max-residual-bucket/{_bucket(worst)}")
 
 
-def symext_tasks(ctx, quick):
+def symext_tasks(ctx, quick, prs=None):
     rng = ctx.rng
     tasks = []
     combos = [((2, 2), 1), ((2, 2), 2), ((2, 3), 1), ((2, 3), 2), ((3, 2), 1), ((3, 2), 2), ((2, 2), 3)] + ([] if quick else [((3, 3), 1), ((3, 3), 2), ((2, 3), 3)])
@@ -927,6 +974,8 @@ def symext_tasks(ctx, quick):
             while inst["k"] > 3:
                 inst = gen_instance(rng, quick, forms=(inst["form"],), dims_pool=[(dA, dB)])
             inst["dim_default"] = bool(dA == dB and rng.integers(2))
+            if prs is not None:
+                vary_ensemble(prs, inst, zero_prior_one_in=8)
             ms = []
             for t in range(n_meas):
                 kind = ["projective", "locc", "mixture"][t % 3]
@@ -937,10 +986,10 @@ def symext_tasks(ctx, quick):
     return tasks
 
 
-def symext_embedding(ctx, quick):
+def symext_embedding(ctx, quick, prs=None):
     import time as _t
     t0 = _t.time()
-    run_pool(ctx, work_symext_embed, symext_tasks(ctx, quick))
+    run_pool(ctx, work_symext_embed, symext_tasks(ctx, quick, prs))
     h = ctx.hist
     bs = [kk.rsplit("/", 1)[1] for kk in h if kk.startswith("symext/max-residual-bucket/")]
     order = lambda b: -1e9 if b == "0" else (1e9 if b == "inf" else float(b[2:]))  # noqa: E731
@@ -986,37 +1035,38 @@ def run(ctx, model_ok=True):
     check_partial_transpose(ctx)
     all_calls = [("dual", 0), ("dual", 1), ("primal", 0), ("primal", 1)]  # cheap and robust form first (per-task time limit)
     tasks = []
+    prs = rng.spawn(1)[0]   # presentation stream: a child of the seeded generator (spawning does not consume the parent's draws)
     for i, form in enumerate(["vec1d", "col", "dm"]):
-        inst = bell_instance(form, rng)
+        inst = vary_ensemble(prs, bell_instance(form, rng))
         inst["sys_primal"] = i % 2
         tasks.append((inst, all_calls))
     n_inst = 72 if quick else 600
     for i in range(n_inst):
-        inst = gen_instance(rng, quick)
+        inst = vary_ensemble(prs, gen_instance(rng, quick), zero_prior_one_in=8)
         inst["sys_primal"] = i % 2
         tasks.append((inst, all_calls))
     run_pool(ctx, work, tasks)
     inv = []
     for i in range(24 if quick else 160):
-        inst = gen_instance(rng, quick)
+        inst = vary_ensemble(prs, gen_instance(rng, quick), zero_prior_one_in=8)
         inv.append((inst, "primal" if (i % 2 and inst["k"] == 4) else "dual", int(rng.integers(2))))
     run_pool(ctx, work_invariance, inv)
     hier = []
     for form in ("dm", "col"):  # level 2 on 2x3 (about 10 s each): two instances in the quick tier, scheduled first
-        inst = gen_instance(rng, quick, forms=(form,), dims_pool=[(2, 3)])
+        inst = vary_ensemble(prs, gen_instance(rng, quick, forms=(form,), dims_pool=[(2, 3)]))
         inst["dim_default"] = False
         hier.append((inst, [1, 2]))
-    hier.append((bell_instance("col", rng), [1, 2]))
-    hier.append((bell_instance("dm", rng), [1, 2]))
+    hier.append((vary_ensemble(prs, bell_instance("col", rng)), [1, 2]))
+    hier.append((vary_ensemble(prs, bell_instance("dm", rng)), [1, 2]))
     for i in range(28 if quick else 200):
-        inst = gen_instance(rng, quick, forms=("col", "col", "dm", "dm_mixed"))
+        inst = vary_ensemble(prs, gen_instance(rng, quick, forms=("col", "col", "dm", "dm_mixed")), zero_prior_one_in=8)
         inst["dim_default"] = bool(rng.integers(2))
         small = inst["dA"] * inst["dB"] == 4
         levels = [1, 2] if (small or (not quick and i % 4 == 0)) else [1]
         hier.append((inst, levels))
     run_pool(ctx, work_hierarchy, hier)
     # feasibility embedding of exact separable measurements into the captured problems of the hierarchy
-    symext_embedding(ctx, quick)
+    symext_embedding(ctx, quick, prs)
     nfail = sum(v for kk, v in ctx.hist.items() if kk.startswith("ppt/primal") and "solver-numerical-failure" in kk)
     nprim = sum(v for kk, v in ctx.hist.items() if kk.startswith("ppt/primal"))
     ndfail = sum(v for kk, v in ctx.hist.items() if kk.startswith("ppt/dual") and "solver-numerical-failure" in kk)
@@ -1041,7 +1091,8 @@ def replay(ctx, rec):
         return
     inst = {"dA": a["dA"], "dB": a["dB"], "k": a["k"], "cplx": a["cplx"], "form": a["form"], "kind": a.get("kind", "random"), "probs": a["probs"],
             "probs_given": a.get("probs_given", True), "states": [arr(s) for s in a["states"]],
-            "U": arr(a["U"]) if "U" in a else np.eye(a["dA"], dtype=complex), "V": arr(a["V"]) if "V" in a else np.eye(a["dB"], dtype=complex)}
+            "U": arr(a["U"]) if "U" in a else np.eye(a["dA"], dtype=complex), "V": arr(a["V"]) if "V" in a else np.eye(a["dB"], dtype=complex),
+            "pres": a.get("pres"), "real_idx": a.get("real_idx") or []}
     res = Result()
     fn = a.get("fn", "ppt_distinguishability")
     if fn == "symext_embed":
